@@ -48,7 +48,8 @@ CLAIMED = {
                  "does not know, a nuclide whose half life / branching ratio / name are the header's radionuclide_half_life[0] / "
                  "radionuclide_branching_ratio[0] / name, and the data base's entry otherwise; the writer (write_interfile_radionuclide_info) emits name, half "
                  "life and branching ratio each under its own key, the reader's key table binds each key to the member of its name, and (lemma, parser "
-                 "trusted) a nuclide unknown to the data base survives the round trip. Not decided: the read-back accuracy "
+                 "trusted) a nuclide unknown to the data base survives the round trip; (e) byte order: every inner read of read_data (converting overload, row "
+                 "recursion) and every inner write of write_data_with_fixed_scale_factor uses the byte order the call was given, never an overload's default. Not decided: the read-back accuracy "
                  "'within half a quantisation step' (needs the IEEE error bound of the float division: solver time-out, argued in DESIGN.md), voxel "
                  "positions, header key parsing / writing and all other exam information, byte order, truncated files, dynamic/parametric containers."),
         "note": ("trusted: cbmc 6.11.0 MiniSat with its IEEE-754 float model and its floor() model; std::max_element/min_element deliver the extreme values; "
@@ -179,6 +180,8 @@ CLAIMED = {
                  "generating factors are a fixed point up to the rounding of one product and one quotient (that rounding bound itself: IEEE, not proved). "
                  "(f) apply / un-apply statements of apply_block_norm, apply_efficiencies, apply_geo_norm: apply multiplies and un-apply divides by the same "
                  "factor with the indices the factor kind prescribes. "
+                 "(g) the range accessors get_min_rb/get_max_rb/get_min_b/get_max_b/get_max_a/get_max_ra return the ranges the geometry prescribes; "
+                 "iterate_efficiencies visits every partner of a detector's fan exactly once (four nested loop contracts). "
                  "Not decided: that the division undoes the multiplication (rounding), the rotation/mirror map of apply_geo_norm, iterate_efficiencies, the sums around the element "
                  "update, KL descent of the ML iterations, the loops around the maps; the FanProjData and GeoData3D constructors, GeoData3D::is_in_data and operator() ARE under contract (index ranges = reader contracts, element addressed inside them); BlockData3D / DetPairData are not."),
         "note": ("trusted: cbmc 6.11.0 + kissat; IndexRange/Array grow deliver the requested ranges (C11); bin <-> detector "
